@@ -160,6 +160,8 @@ def deductive(run: Run, sidecar: str, both: bool, enroll: bool) -> dict[str, Any
         run.crashes.append(f"solver disagreement on {sess.disagreements()[:3]}")
     if obligations == 0 and enrolled:
         run.crashes.append("zero obligations generated")
+    res["_coherent_ok"] = {cid.split("/")[0].replace(".setter", ""): True for cid in enrolled
+                           if cid in clauses and clauses[cid]["discharged"] and cid.endswith("/ensures.coherent")}
     res["_failing"] = failing
     res["_missing"] = missing
     res["_session"] = sess
@@ -265,7 +267,26 @@ def run(prop: str, tier: str, seed: int, repo: str, replay: str, enroll: bool) -
             res["trusted_contract_validation"] = defs.validate_trusted(r, sc)
         for k in ("_failing", "_missing", "_session"):
             res.pop(k)
+        res["_coherent_ok"] = res.get("_coherent_ok", {})
         ded_all.append(res)
+    if d.get("frame_scan") and ded_all:
+        from checks import frame_scan
+        okc = ded_all[0].get("_coherent_ok", {})
+        fr = frame_scan.obligations(repo, okc)
+        n_ob = len(fr["obligations"])
+        n_ok = sum(1 for o in fr["obligations"] if o["discharged"])
+        ded_all[0]["obligations"] += n_ob
+        ded_all[0]["discharged"] += n_ok
+        ded_all[0]["by_solver"]["frame-scan"] = n_ok
+        ded_all[0]["frame_scan"] = fr
+        if fr["sites"] == 0:
+            r.crashes.append("frame scan found no mutation site at all (scan broken?)")
+        for o in fr["obligations"]:
+            if not o["discharged"]:
+                r.report(o["obligation"], {"obligation": o["obligation"], "sidecar": d["sidecars"][0], "encoded_args": None,
+                                           "clause_text": "every site that mutates <x>.event_sets / the cached gate tree lies in a function whose contract "
+                                                          "re-establishes the cache-coherence invariant of Event",
+                                           "solver_output": o["sites"]}, no_input=True)
     bounded = []
     for b in d.get("bounded", []):
         bounded.append(defs.run_bounded(r, b))
